@@ -51,6 +51,44 @@ contract('MatlabWrapper._wrapper_unwrap_arguments', params={'args': 'ref:Argumen
          loops={0: {'inv': ['body_args == ml_unwrap_body(args.args_list, _i, old(arg_id), instantiated_class)', 'arg_id == old(arg_id) + _i']},
                 1: {'inv': ['params == ml_call_args(args.backup.args_list, _i, args.args_list, instantiated_class)']}})
 
+# ---- returns: how the result of the call is handed back (single / pair / void / object / enum)
+contract('MatlabWrapper.wrap_collector_function_shared_return',
+         params={'return_type_name': 'ref:Typename', 'shared_obj': 'str', 'func_id': 'int', 'new_line': 'bool'}, returns='str',
+         under=['wf_tn_plain(return_type_name)'],
+         result_is='ml_shared_return(return_type_name, shared_obj, func_id, new_line)')
+contract('MatlabWrapper.wrap_collector_function_return_types', params={'return_type': TY, 'func_id': 'int'}, returns='str',
+         under=['wf_tn_plain(return_type.typename)'],
+         result_is='ml_pair_member(return_type, func_id)')
+contract('Namespace.full_namespaces', returns='list[str]', fresh=True,
+         result_is="[''] + ns_chain(self.parent) + ([self.name] if self.name != '' else [])")
+contract('MatlabWrapper._collector_return', params={'obj': 'str', 'ctype': TY, 'instantiated_class': CLS}, returns='str',
+         modifies=['alloc'],
+         under=['wf_tn_plain(ctype.typename)',
+                'implies(instantiated_class is not None, not isinstance(instantiated_class.parent, str))',
+                '(len(ctype.template_params) >= 1 and wf_tn_plain(ctype.template_params[0].typename)) if isinstance(ctype, TemplatedType) else True'],
+         result_is='old(ml_single_return(obj, ctype, instantiated_class))')
+contract('FormatMixin._format_static_method', params={'self': 'ref:MatlabWrapper', 'static_method': 'ref:InstantiatedStaticMethod', 'separator': 'str'},
+         returns='str', modifies=['alloc'], result_is='old(ic_cpp(static_method.parent) + separator)')
+contract('FormatMixin._format_global_function', params={'self': 'ref:MatlabWrapper', 'function': 'ref:GlobalFunction', 'separator': 'str'},
+         returns='str', modifies=['alloc'],
+         result_is="old((''.join([separator + x for x in ([''] + ns_chain(function.parent.parent) + ([function.parent.name] if function.parent.name != '' else []))]) + separator)[2 * len(separator):])")
+METHODLIKE = 'ref:InstantiatedMethod|ref:InstantiatedStaticMethod|ref:GlobalFunction'
+RET_UNDER = ['forall(0, len(method.args.args_list), lambda j: wf_tn_plain(method.args.args_list[j].ctype.typename))',
+             'implies(instantiated_class is not None, not isinstance(instantiated_class.parent, str))',
+             'forall(0, len(method.args.backup.args_list), lambda j: isinstance(method.args.backup.args_list[j].ctype.typename.name, str))',
+             'wf_tn_plain(method.return_type.type1.typename)',
+             '(len(method.return_type.type1.template_params) >= 1 and wf_tn_plain(method.return_type.type1.template_params[0].typename)) '
+             'if isinstance(method.return_type.type1, TemplatedType) else True',
+             "wf_tn_plain(method.return_type.type2.typename) if not isinstance(method.return_type.type2, str) else True",
+             # known finding C06-templated-method-with-pair-return-crashes: `method` is rebound to its spelling
+             "not (isinstance(method, InstantiatedMethod) and len(method.instantiations) > 0 and not isinstance(method.return_type.type2, str))"]
+contract('MatlabWrapper.wrap_collector_function_return', params={'method': METHODLIKE, 'instantiated_class': CLS}, returns='str',
+         modifies=['alloc'], under=RET_UNDER,
+         result_is='old(ml_return_body(method, instantiated_class))')
+
 C06_KEYS = ['CheckMixin.is_class_enum', 'CheckMixin.is_global_enum', 'CheckMixin.is_enum', 'CheckMixin.can_be_pointer', 'CheckMixin.is_ref', 'CheckMixin.is_ptr', 'CheckMixin.is_shared_ptr',
             'MatlabWrapper._return_count', 'MatlabWrapper._format_varargout', 'MatlabWrapper._wrap_list_variable_arguments',
-            'MatlabWrapper._wrap_variable_arguments', 'MatlabWrapper._wrap_method_check_statement', 'FormatMixin._format_type_name', 'MatlabWrapper._unwrap_argument', 'MatlabWrapper._wrapper_unwrap_arguments']
+            'MatlabWrapper._wrap_variable_arguments', 'MatlabWrapper._wrap_method_check_statement', 'FormatMixin._format_type_name', 'MatlabWrapper._unwrap_argument', 'MatlabWrapper._wrapper_unwrap_arguments',
+            'Namespace.full_namespaces', 'FormatMixin._format_static_method', 'FormatMixin._format_global_function',
+            'MatlabWrapper.wrap_collector_function_shared_return', 'MatlabWrapper.wrap_collector_function_return_types',
+            'MatlabWrapper._collector_return', 'MatlabWrapper.wrap_collector_function_return']
